@@ -40,15 +40,16 @@ from unittest import mock
 import common as C
 
 PROPERTY = "C14"
-LEAN_MODULES = ["LccModel.Props.C14", "LccModel.Props.C14Inject", "LccModel.Props.C14Callable"]
-PROPS_FILES = ["LccModel/Props/C14.lean", "LccModel/Props/C14Inject.lean", "LccModel/Props/C14Callable.lean"]
+LEAN_MODULES = ["LccModel.Props.C14", "LccModel.Props.C14Inject", "LccModel.Props.C14Callable", "LccModel.Props.C14Reconfig"]
+PROPS_FILES = ["LccModel/Props/C14.lean", "LccModel/Props/C14Inject.lean", "LccModel/Props/C14Callable.lean",
+               "LccModel/Props/C14Reconfig.lean"]
 NAMESPACES = {"LccModel/Props/C14.lean": "LccModel.C14", "LccModel/Props/C14Inject.lean": "LccModel.C14I",
-              "LccModel/Props/C14Callable.lean": "LccModel.C14C"}
+              "LccModel/Props/C14Callable.lean": "LccModel.C14C", "LccModel/Props/C14Reconfig.lean": "LccModel.C14R"}
 TABLE_OPENS = ("LccModel.Inject",)
 DRIVER = "drivers/C14.lean"
 TRUSTED_BASE = [
     "Lean 4.33.0 kernel; axioms of the property theorems ⊆ {propext, Classical.choice, Quot.sound}",
-    "hand-written models LccModel/Model/{Fixture,Deps,Policy,Prepare,Inject,Callable,FixtureDecl}.lean of fixture.py (FixtureRegistry, ScheduledFixtures, "
+    "hand-written models LccModel/Model/{Fixture,Deps,Policy,PolicySeq,Prepare,Inject,Callable,FixtureDecl}.lean of fixture.py (FixtureRegistry, ScheduledFixtures, "
     "the @lcc.fixture decorator), helpers/introspection.py (get_callable_args: own positional parameters of the called object minus the bound self; "
     "re-extracted on every run over 20 ways of writing a callable x 3 parameter lists, Generated/C14TablesCheck.lean callable_table_agrees), "
     "suite/core.py (resolve_tests_dependencies, Suite._load_injected_fixtures / inject_fixtures), helpers/introspection.py "
@@ -56,6 +57,11 @@ TRUSTED_BASE = [
     "dir() (alphabetical listing), Python's name mangling of __x inside class bodies and attribute shadowing are represented by "
     "the attribute list handed to the model (effective names computed by the harness, sorted by the driver); the decision "
     "'shape x place -> discovered / assigned' is re-extracted from the real loader on every run (Generated/C14TablesCheck.lean)",
+    "one MetadataPolicy object over time (Model/PolicySeq.lean: configure / check sequences; _get_rule_application re-extracted through "
+    "add_tag_rule / add_property_rule + a check on all 9 (on_test, on_suite) combinations, Generated/C14TablesCheck.lean "
+    "tag_application_table_agrees / prop_application_table_agrees) is tied to the code by C14.reconfig (harness/props/_c14seq.py): "
+    "check_test_compliance / check_suite_compliance / check_suites_compliance / PreparedProject.create on ONE policy / Project object, "
+    "every verdict also computed by a fresh MetadataPolicy configured with the same calls",
     "correspondence harness harness/props/c14.py: generated projects are built with the real decorators/loaders and pushed "
     "through the real PreparedProject.create / PreparedProject.run",
     "the scheduler / task graph (task.py, runner.py build_tasks) is NOT modelled here (M1, M2, M5 belong to C01-C03): the "
@@ -85,7 +91,9 @@ EXPLANATION = ("Completeness (prepare = ok iff declarative validity; errors are 
                "to the code by C14.validate (exact error kind and scheduling lists) and the run half by C14.run.  The fixture names a "
                "callable needs are the own positional parameters of the object that is called, whatever it wraps (C14C.needed_ignores_wrapped, "
                "callable_arguments_found; table callableTable), and a per-thread fixture of an accepted project has scope session or suite "
-               "(C14C.prepareFull_accepts_iff, refused_declaration_never_accepted; table declTable).")
+               "(C14C.prepareFull_accepts_iff, refused_declaration_never_accepted; table declTable).  "
+               "A policy object that is reconfigured between checks applies, at every check, the rules as they are at that moment "
+               "(C14R.check_verdict_current_rules, earlier_checks_invisible, forbidden_tag_rejected_after_reconfiguration; stream C14.reconfig).")
 
 SCOPE_LEVEL = {"test": 1, "suite": 2, "session": 3, "pre_run": 4}
 BUILTINS = ("cli_args", "project_dir")
@@ -316,7 +324,12 @@ def tables(ctx):
         keys.append((lean, "true" if own else "false", {"inject_fixture": arg_src, "uses_attribute_name": own}))
     imp = ("LccModel.Model.Inject",)
     impc = ("LccModel.Model.Callable",)
-    return [C.Table("discoveryTable", "List ((Shape × Place) × Bool)", disc, imports=imp),
+    from props import _c14seq
+    app_tag, app_prop = _c14seq.application_rows()
+    imps = ("LccModel.Model.PolicySeq",)
+    return [C.Table("tagApplicationTable", "List ((Option Bool × Option Bool) × Option (Bool × Bool))", app_tag, imports=imps),
+            C.Table("propApplicationTable", "List ((Option Bool × Option Bool) × Option (Bool × Bool))", app_prop, imports=imps),
+            C.Table("discoveryTable", "List ((Shape × Place) × Bool)", disc, imports=imp),
             C.Table("assignTable", "List ((Shape × Place) × Bool)", asg, imports=imp),
             C.Table("twiceTable", "List ((Shape × Place) × Bool)", twice, imports=imp),
             C.Table("keyTable", "List (Option String × Bool)", keys, imports=imp),
@@ -2070,4 +2083,5 @@ class Run(C.Stream):
 
 
 def streams(ctx):
-    return [Validate(), Run()]
+    from props import _c14seq
+    return [Validate(), Run(), _c14seq.Reconfig()]
